@@ -21,7 +21,7 @@ INFEASIBLE_ERR = "ser::to_string(object)"
 def run(ctx):
     fx = ctx.facts("A")
     w = W.World(fx, ["ruma_common", "ruma_signatures"])
-    dex = D.Dex(w.lookup, adt_discr=w.adt_discr, effects=lambda n: True, unroll=1)
+    dex = D.Dex(w.lookup, adt_discr=w.adt_discr, effects=lambda n: True, unroll=1, inline=U.sig_inline)
 
     # ---- A7: atomicity of sign_json ----------------------------------------------------------------
     ctx.rule("C02.atomic", "sign_json: on every path that returns Err, each entry removed from the object (remove_entry -> Some) has been "
@@ -135,7 +135,7 @@ def run(ctx):
                                 "verify_canonical_json_for_entity(entity, keys, signature map, bytes of canonical_json(object)) and its error is propagated; "
                                 "canonical_json removes CANONICAL_JSON_FIELDS_TO_REMOVE")
     f3 = w.fn(f"{FN}::verify_json")
-    dexu = D.Dex(w.lookup, adt_discr=w.adt_discr, effects=lambda n: True, unroll=2)
+    dexu = D.Dex(w.lookup, adt_discr=w.adt_discr, effects=lambda n: True, unroll=2, inline=U.sig_inline)
     paths = dexu.paths(f3, [D.sym("pkm"), D.sym("object")])
     okp3 = [p for p in paths if p.kind == "ret" and U.is_ok(p.ret)]
     ctx.floor("verify_json success paths", len(okp3), 2)
@@ -216,7 +216,7 @@ def run(ctx):
     ctx.rule("C02.ed25519", "Ed25519Verifier::verify_json: VerifyingKey::from_bytes(public_key) then .verify(message, signature) with roles unswapped; "
                             "every failure maps to Err; verifier_from_algorithm yields it for Ed25519 only")
     f7 = w.fn("<ruma_signatures::verification::Ed25519Verifier as ruma_signatures::verification::Verifier>::verify_json")
-    dexi = D.Dex(w.lookup, adt_discr=w.adt_discr, effects=lambda n: True, inline=lambda n: "verify_json::{closure" in n)
+    dexi = D.Dex(w.lookup, adt_discr=w.adt_discr, effects=lambda n: True, inline=lambda n: "verify_json::{closure" in n or U.sig_inline(n))
     paths = dexi.paths(f7, [D.sym("self"), D.sym("public_key"), D.sym("signature"), D.sym("message")])
     okp7 = [p for p in paths if p.kind == "ret" and not U.is_err(p.ret)]
     for p in okp7:
@@ -246,7 +246,7 @@ def run(ctx):
 
 def empty_object_closure(w, clo):
     f = w.fn(clo[1])
-    d = D.Dex(w.lookup, adt_discr=w.adt_discr)
+    d = D.Dex(w.lookup, adt_discr=w.adt_discr, inline=U.sig_inline)
     ps = d.paths(f, [clo])
     return len(ps) == 1 and D.show(ps[0].ret) == "CanonicalJsonValue::Object(BTreeMap::new())"
 
